@@ -26,15 +26,41 @@ def gen_case(rng, transport):
     return " | ".join(secs + ["transport " + transport] + ops), expect
 
 
+def conc_case(rng, n_conn):
+    """many connections served at once, every reply a different large value: what one connection receives must not depend on the others"""
+    secs = ["svc 76 70 31 75 -", "iface %s %s" % (S.hx(b"a.b"), S.hx(b"interface a.b\nmethod M() -> ()"))]
+    scripts = {}
+    for mi in range(6):
+        m = b"a.b.M%d" % mi
+        val = "{6964:D%s;,73:S%s;,626c6f62:S%s;}" % (str(2 ** 53 + 7 + mi * 1000003).encode().hex(), ("\u00fc\u2713 %d" % mi).encode().hex(),
+                                                    (bytes([97 + mi]) * rng.choice([100, 3000, 70000])).hex())
+        steps = [S.Step("r", "e", val=val)]
+        scripts[m] = (steps, False)
+        secs.append(S.script_text(m, steps, False))
+    conns = []
+    for _ in range(n_conn):
+        calls, data = [], b""
+        for _ in range(rng.choice([3, 6])):
+            m = rng.choice(sorted(scripts))
+            calls.append(C.Call(m, b"{}"))
+            data += S.call_bytes(rng, m, b"{}", False, False, False, canonical=True) + b"\x00"
+        conns.append((calls, data))
+        secs.append("conn half %s" % data.hex())
+    meta = dict(registry=[b"a.b"], descrs={S.SVC: C.svc_descr(), b"a.b": b"interface a.b\nmethod M() -> ()"}, scripts=scripts, conns=conns,
+                info={"vendor": "v", "product": "p", "version": "1", "url": "u", "interfaces": [S.SVC.decode(), "a.b"]}, comparable=True)
+    return " | ".join(secs), meta
+
+
 def main(pid, argv):
     ck = V.Check(pid, argv)
     ck.rule = ("cases: real client <-> real service; call parameters and reply parameters are generated JSON objects (nested arrays/objects/Go maps, integers "
                "beyond 2^53, exponents, empty objects, null members, unicode, control and invalid-UTF-8 strings); more-sequences of length 0..50; transports "
-               "filesystem unix socket, abstract unix socket, TCP loopback, bridge subprocess. distinct = distinct case lines; non-trivial = a call with non-empty parameters")
+               "filesystem unix socket, abstract unix socket, TCP loopback, bridge subprocess; plus 16-48 connections served at once, each receiving different replies "
+               "of 100 B - 70 KiB (integers above 2^53, unicode). distinct = distinct case lines; non-trivial = a call with non-empty parameters")
     ck.assumptions = ["strings that are not valid UTF-8 are excluded from the JSON-equality oracle (Go replaces invalid bytes by U+FFFD: stated hypothesis utf8_valid); they are still compared with the model",
                       "the four OS transports are sampled, not modelled beyond 'reliable byte stream'"]
     ck.check_obligations()
-    bins = C.build(ck, ("h_e2e", "h_relay"))
+    bins = C.build(ck, ("h_e2e", "h_relay", "h_svc"))
     if bins is None:
         return ck.finish()
     rng = ck.rng
@@ -112,6 +138,32 @@ def main(pid, argv):
             ck.tie_broken("client/handler observables differ from the model", line[:1500], il[:800], ml[:800])
         elif "released=1" not in il:
             ck.fail("e2e-roundtrip", line, "connection not released after the client closed", impl=il[-100:])
+    # ---- many connections at once ----
+    if not ck.replay or json.load(open(ck.replay))["failing"]["kind"] == "svc-concurrent":
+        if ck.replay:
+            ccases = [(json.load(open(ck.replay))["failing"]["case"], None)]
+        else:
+            ccases = [conc_case(rng, rng.choice([16, 24, 48] if thorough else [16, 24])) for _ in range(60 if thorough else 8)]
+        clines = [c[0] for c in ccases]
+        cimpl = C.run_impl(bins["h_svc"], clines, jobs=4)
+        cmodel = C.run_model(clines)
+        for (line, meta), il, ml in zip(ccases, cimpl, cmodel):
+            ck.evaluations += 1
+            ck.count("concurrent-connections", line.count(" | conn "))
+            ck.distinct.add(line[:4000])
+            iconns, isvc = C.split_result(il)
+            mconns, _ = C.split_result(ml)
+            bad = None
+            if iconns is None:
+                bad = "service run failed: " + il[:200]
+            elif meta is not None:
+                for ci, cs in enumerate(iconns):
+                    bad = bad or C.check_conn(meta, meta["conns"][ci][0], cs, ci)
+            if bad:
+                nf += 1
+                ck.fail("svc-concurrent", line, bad[:600], impl=il[:600], model=ml[:600])
+            elif iconns != mconns:
+                ck.tie_broken("per-connection bytes differ from the model under concurrent connections", line[:800], il[:400], ml[:400])
     ck.extra["failing_inputs_total"] = nf
     for line, il in list(zip(lines, impl))[:: max(1, len(lines) // 4)]:
         ck.sample(dict(case=line[:400], impl=il[:300]))
